@@ -258,6 +258,12 @@ func (e *SpecEnv) resolveType(t spec.TypeExpr) (types.Type, string, bool) {
 		return et, "Err", true
 	case "uint":
 		return types.Typ[types.Uint], "Int", true
+	case "byte":
+		return types.Typ[types.Uint8], "Int", true
+	case "rune":
+		return types.Typ[types.Rune], "Int", true
+	case "int64":
+		return types.Typ[types.Int64], "Int", true
 	case "struct{}":
 		st := types.NewStruct(nil, nil)
 		return st, vc.S.Sort(st), true
@@ -655,6 +661,9 @@ func (e *SpecEnv) isNilTest(v Val) (string, bool) {
 		case "Iface":
 			return eq(e.termOf(v), "inil"), true
 		}
+	case *types.Signature:
+		// function values are identifiers; the nil function value is the zero identifier
+		return eq(e.termOf(v), vc.S.Zero(v.T)), true
 	}
 	return "", false
 }
